@@ -264,6 +264,37 @@ func runC12(c *core.Ctx) {
 			c.Distinct("fixed", f.src, fmt.Sprint(n))
 		}
 	}
+	// ---- loop variables and captures over Drops: a name bound to one Drop, then to others, then restored ------------
+	mm := &ref.Model{}
+	for i := 0; i < c.Pick(600, 12000); i++ {
+		if !c.Mine(i) {
+			continue
+		}
+		r := c.Rand(i, 6)
+		np := r.Range(2, 4)
+		people := make([]gen.V, np)
+		for j := range people {
+			people[j] = gen.Map(gen.KV{K: "name", V: gen.Str(fmt.Sprintf("p%d", r.Intn(90)))}, gen.KV{K: "age", V: gen.Int(int64(r.Range(1, 9)))})
+		}
+		env := gen.Env{{K: "p", V: gen.Map(gen.KV{K: "name", V: gen.Str("outer")}, gen.KV{K: "age", V: gen.Int(0)})}, {K: "people", V: gen.Arr(people...)}, {K: "sarr", V: gen.Strs("x", "y")}}
+		name := func(v string) gen.Expr { return gen.Prop{X: gen.Var{Name: v}, Name: "name"} }
+		shadow := gen.For{Var: "p", Coll: gen.Var{Name: "people"}, Tablerow: i%5 == 4, Body: []gen.Node{gen.Out{E: name("p")}, gen.Text{S: ","}}}
+		prog := []gen.Node{gen.Out{E: name("p")}, gen.Text{S: ";"}, shadow, gen.Text{S: ";"}, gen.Out{E: name("p")}, gen.Text{S: "|"},
+			gen.For{Var: "q", Coll: gen.Var{Name: "people"}, Body: []gen.Node{gen.Capture{Name: "c", Body: []gen.Node{gen.Out{E: name("q")}}}, gen.Out{E: gen.Var{Name: "c"}}, gen.Text{S: "."},
+				gen.For{Var: "q", Coll: gen.Var{Name: "sarr"}, Body: []gen.Node{gen.Out{E: gen.Var{Name: "q"}}}}, gen.Out{E: gen.Prop{X: gen.Var{Name: "q"}, Name: "age"}}, gen.Text{S: ","}}},
+			gen.Text{S: "|"}, gen.Assign{Name: "p", E: gen.Index{X: gen.Var{Name: "people"}, I: intLit(1)}}, gen.Out{E: name("p")},
+			gen.For{Var: "p", Coll: gen.Var{Name: "people"}, Body: []gen.Node{gen.If{Conds: []gen.Expr{gen.Cmp{Op: "==", A: gen.Prop{X: gen.Var{Name: "forloop"}, Name: "index"}, B: intLit(2)}}, Bodies: [][]gen.Node{{gen.Break{}}}}, gen.Out{E: name("p")}}},
+			gen.Out{E: name("p")}}
+		src := gen.DefaultStyle.Source(prog)
+		bind := gen.RealiseEnv(env, r, gen.Rep{Drops: true, Pointers: i%2 == 0})
+		if !c.Begin("drop-rebinding:" + src + " bindings=" + gen.DescribeEnv(bind)) {
+			continue
+		}
+		if modelCompare(c, e, mm, prog, env, bind, gen.DefaultStyle, "drop-rebinding", "a loop variable, capture or assign over Drops: the name must have the current item in each iteration and its earlier value after the loop") {
+			c.Obs("drop_rebinding_cases", 1)
+			c.Distinct("droprebind", src, gen.DescribeEnv(bind))
+		}
+	}
 	// ---- capture equivalence over the general generator ---------------------------------
 	e2 := liquid.NewEngine()
 	n2 := c.Pick(30000, 600000)
